@@ -19,12 +19,12 @@ for ml, t in ((1, "quick"), (2, "quick"), (3, "thorough"), (33, "thorough")):
     OBLIGATIONS.append(enc("encrypt_ex_decrypt", "h_encrypt_decrypt", ml, "sm2_do_encrypt_ex (pre-computed nonce): ciphertext = GB/T 32918.4 value; sm2_do_decrypt inverts; all-zero t reported", tier="thorough", timeout=3000,
                            defs=["-DSMALL_Q=13", "-DML=%d" % ml, "-DREC_CAP=128", "-DREC_SLOTS=8", "-DWHICH=0"]))
     OBLIGATIONS.append(enc("decrypt_sound", "h_decrypt_sound", ml, "sm2_do_decrypt accepts => C1 finite curve point, t != 0, M = C2 xor KDF([d]C1), all 32 bytes of C3 = H(x2||M||y2)", tier=t))
-for cl in (1, 3, 40):
+for cl in (0, 1, 3, 40):
     OBLIGATIONS.append({"id": "C02-b.ciphertext_der.c%d" % cl, "harness": "harness/C02/der.c", "entry": "h_ciphertext_roundtrip", "units": ["sm2_enc.c", "asn1.c"],
                         "remove": {"sm2_enc.c": ["sm2_encrypt_pre_compute", "sm2_do_encrypt", "sm2_do_encrypt_ex", "sm2_do_encrypt_fixlen", "sm2_do_decrypt", "sm2_kdf",
                                                  "sm2_encrypt", "sm2_encrypt_fixlen", "sm2_decrypt", "sm2_encrypt_init", "sm2_encrypt_update", "sm2_encrypt_finish",
                                                  "sm2_encrypt_reset", "sm2_decrypt_init", "sm2_decrypt_update", "sm2_decrypt_finish", "sm2_decrypt_reset"]},
-                        "defs": ["-DCL=%d" % cl], "unwind": 45, "timeout": 900, "tier": "quick" if cl <= 1 else "thorough", "mem_gb": 24,
+                        "defs": ["-DCL=%d" % max(cl, 1), "-DZMAX=%d" % (1 if cl == 0 else 2)], "cbmc": ["--max-field-sensitivity-array-size", "300"], "unwind": 45, "timeout": 900, "tier": "quick" if cl == 0 else "thorough", "mem_gb": 24,
                         "title": "SM2Cipher DER: from_der(to_der(C)) = C for coordinates with 0..2 leading zero bytes, dry run = written",
-                        "bounds": "C2 of %d bytes; x, y with exactly 0..2 leading zero bytes (case split), other bytes arbitrary" % cl})
+                        "bounds": "C2 of %d bytes; x, y with exactly 0..2 leading zero bytes, first significant byte 0x5a or 0x85, other bytes arbitrary (case split)" % cl})
 NOTE = "C02: SM2 encryption and ECDH."
